@@ -184,3 +184,17 @@ func HasMultiKeyMap(v any) bool {
 	}
 	return false
 }
+
+// WidePaths is the small alphabet used on WideDocs with paths of up to three
+// fragments: one fragment of every kind and bound sign.
+func WidePaths() *PathAlphabet {
+	a := &PathAlphabet{}
+	a.add("child", JPChild("a"), JPChild("x"))
+	a.add("nth", JPNth(0), JPNth(1), JPNth(-1))
+	a.add("wild", JPSimple("wild"))
+	a.add("desc", JPSimple("desc"))
+	a.add("union", JPUnion(1, 0), JPUnion("x", "a"))
+	a.add("slice", JPSlice(1), JPSlice(0, 2), JPSlice(-2), JPSlice(-1, 0, -1))
+	a.add("filter", JPFilter(FilterScripts()[0]), JPFilter(FilterScripts()[2]))
+	return a
+}
